@@ -14,6 +14,7 @@ pub mod c02_batch;
 pub mod c19_http_gate;
 pub mod c10_stop;
 pub mod c11_guard;
+pub mod c12_batch;
 pub mod c13_registry;
 pub mod c14_host_filter;
 pub mod c15_wire_types;
